@@ -10,8 +10,8 @@ ioflo/base/housing.py), on the data they walk — frames and framers are numbers
 
 A Python `while` loop is a function with a step budget (`fuel`); `none` = "budget exhausted".  The theorems
 (Props/C14.lean) say when some budget suffices and when none does.  `…Checked` are the loops repaired
-by fixes/D64-over-loop-check.patch and fixes/D06-under-loop-check.patch (a visited list, `ResolveError` on a
-repeat).  Core Lean only.
+by fixes/D64-over-loop-check.patch, fixes/D06-under-loop-check.patch (a visited list, `ResolveError` on a
+repeat) and fixes/D05-moot-clone-loop.patch (a lineage per clone).  Core Lean only.
 -/
 namespace Ioflo.Worklist
 
@@ -52,6 +52,18 @@ def run (moots : Nat → List Nat) : Nat → List Nat → Option Nat
   | 0, _ => none
   | _ + 1, [] => some 0
   | fuel + 1, k :: wl => (run moots fuel (wl ++ moots k)).map (· + 1)
+
+/-- the worklist repaired by fixes/D05-moot-clone-loop.patch: every framer carries its `lineage` (the moot
+originals it was cloned from, outermost first; `()` for a framer of the script).  `resolveMoots` raises
+`ResolveError("Clone loop")` when a moot to clone is already in the lineage, otherwise the clone gets
+`lineage + (original,)`.  Result: `none` = budget exhausted, `some none` = ResolveError, `some (some n)` = `n`
+framers presolved. -/
+def runChecked (moots : Nat → List Nat) : Nat → List (Nat × List Nat) → Option (Option Nat)
+  | 0, _ => none
+  | _ + 1, [] => some (some 0)
+  | fuel + 1, (k, lin) :: wl =>
+    if (moots k).any (fun j => lin.contains j) then some none
+    else (runChecked moots fuel (wl ++ (moots k).map (fun j => (j, lin ++ [j])))).map (·.map (· + 1))
 
 /-- `for frame in Frame.Names.values(): frame.resolve()` restricted to the over links: the first frame whose
 climb does not end normally decides -/
